@@ -63,7 +63,21 @@ RULE = (
     "torch.set_default_dtype(float64) and must give the identical tensor and transcript.  GUARDS: the transcript "
     "lists / mapping dicts / token tensor handed to every writer, reader and converter are unchanged after the "
     "call (repr / clone comparison on every case); a fixed probe per entry point is evaluated before and after "
-    "every shard and must not change, nor may the tensor kept from the first call.  Non-trivial: trn file with a group of alternates or >1 "
+    "every shard and must not change, nor may the tensor kept from the first call.  OBJECT LIFECYCLE (large shard): "
+    "one OPEN handle (real file and StringIO) reused after a writer raised and the caller caught it (what the failed "
+    "call itself left behind is counted, not judged - see assumptions) - write_trn "
+    "with an unwritable element (int / None) at top level first / middle / last / only, as a timed token, in the "
+    "first / second alternate, after a token in an alternate, in a nested alternate, after an alternate, or a "
+    "non-string utterance id, as its own call and in the middle / at the start of a several-utterance call, "
+    "followed by three kinds of next utterance; write_ctm with a segment of negative start / negative duration / "
+    "bare token / pair in first / middle / last position or an utterance missing from utt2wc; write_textgrid "
+    "with an empty transcript, start_time / end_time contradicting the tier, a None time in each position; when "
+    "the failed calls left nothing, the file must be byte-identical to the accepted calls written to a path on "
+    "their own.  SECONDARY ENTRY POINTS: "
+    "path form, open-file form and iterator forms (read_trn_iter on a file and on a path) of every reader / "
+    "writer with non-ASCII tokens (IPA eth, e-acute, en-dash, CJK), ids and tier name over every trn file of "
+    "size <= 2, ctm sequences of <= 2 segments x 6 mappings and TextGrid tiers of <= 2 entries x 3 precisions.  "
+    "Non-trivial: trn file with a group of alternates or >1 "
     "utterance; ctm with >= 2 segments; TextGrid with >= 2 entries; token transcript with a timed entry."
 )
 ASSUMPTIONS = [
@@ -85,6 +99,16 @@ ASSUMPTIONS = [
     "compares times with relative tolerance 1e-9 (the dyadic passes stay exact)",
     "frame indices are explored up to 2**32 + 2e4 and token ids up to 2**31 + 7 (int64 tensor, float64 seconds); "
     "times beyond 2**53 frames are out of scope",
+    "what a FAILED write leaves in an open file is outside the property (its quantifier covers transcripts "
+    "expressible in the format - an int token, a non-string id or a None time is not one - and nothing is "
+    "promised about failed writes; a behaviour-preserving writer that streams its output must not be reported): "
+    "the reuse-after-caught-error sequences only COUNT failed_write_left_nothing / "
+    "failed_write_left_partial_output per writer; the verdict of that pass is that after failed calls which "
+    "left nothing, the following accepted calls give exactly the path-form bytes (no state retained in the "
+    "library); a call expected to fail but accepted is counted; for a failing write_trn call of several "
+    "utterances the complete utterances before the unwritable one are not 'partial output'; a second TextGrid is "
+    "never written to a handle that already holds one",
+    "files are opened with the platform default encoding (UTF-8 here), as the library does",
     "degenerate spellings that the formats cannot express are excluded: blank-containing or empty ctm ids / "
     "tokens, trn tokens containing blanks or braces, ids containing parentheses",
 ]
@@ -131,7 +155,7 @@ def _trn_restore(utts):
     """JSON form -> library form (top-level non-str elements are tuples)"""
     out = []
     for u, tr in utts:
-        out.append((u, [e if isinstance(e, str) else tuple(e) for e in tr]))
+        out.append((u, [tuple(e) if isinstance(e, list) else e for e in tr]))
     return out
 
 
@@ -183,7 +207,8 @@ def _trn_eval(ctx, sc, utts, timed, files, pool=None):
                     r2 = D.read_trn(f, warn=True)
                 with open(p2) as f:
                     r3 = list(D.read_trn_iter(f, warn=False))
-            for name, r in (("path", r1), ("file", r2), ("iter", r3)):
+                r4 = list(D.read_trn_iter(p1, warn=False))
+            for name, r in (("path", r1), ("file", r2), ("iter", r3), ("iter-path", r4)):
                 if T.trn_norm(r) != expected:
                     ctx.violation({"api": "read_trn", "symptom": "result-depends-on-entry-point", "entry": name},
                                   case, {"expected": expected, "observed": T.trn_norm(r)})
@@ -830,9 +855,236 @@ def _large_pool(ctx, sc):
     _trn_eval(ctx, sc, utts[:7], "none", False, pool=(2, 2, "file"))
 
 
+
+# =========================================================================================
+# secondary entry points with non-ASCII text; writers reused after a caught exception
+# =========================================================================================
+NONASCII_SUBS = [{"a": "ð", "b": "語"}, {"a": "é–", "b": "aðb"}]  # IPA eth, CJK; e-acute+en-dash
+NONASCII_IDS = ("ü1", "語", "u–3")
+NONASCII_TIER = "wörter–語"
+
+
+def _trn_sub(x, sub):
+    if isinstance(x, str):
+        return sub.get(x, x)
+    if isinstance(x, tuple):
+        return (_trn_sub(x[0], sub),) + tuple(x[1:])
+    return [_trn_sub(v, sub) for v in x]
+
+
+def _nonascii(ctx, sc):
+    """every reader / writer through its path form, its open-file form and the iterator form, with
+    non-ASCII tokens, ids and tier names: identical results, exact round trip"""
+    for si, sub in enumerate(NONASCII_SUBS):
+        for i, trs in enumerate(T.trn_files(2, 3)):
+            utts = [(NONASCII_IDS[j], _trn_sub(tr, sub)) for j, tr in enumerate(trs)]
+            _trn_eval(ctx, sc, utts, "none", True)
+            if i % 8 == si:
+                _trn_eval(ctx, sc, utts, "all", False, pool=(2, 1, "path"))
+        for n in (1, 2):
+            for seq in itertools.product(_ctm_segment_types(False), repeat=n):
+                if n == 2 and (seq[0][3] or seq[1][3] == 0.0):
+                    continue  # reduced: first zero-length, second long
+                tr = [(u, [(sub[t], s, e) for t, s, e in segs]) for u, segs in _ctm_transcripts(seq)]
+                for name in CTM_MAPS:
+                    _ctm_eval(ctx, sc, tr, name, True)
+                ren = {"u1": NONASCII_IDS[0], "u2": NONASCII_IDS[1]}
+                _ctm_eval(ctx, sc, [(ren[u], segs) for u, segs in tr], "default", True)
+        for p in (0, 3, 5):
+            menu = T.tg_menu(p)
+            for n in (1, 2):
+                for b in T.tg_boundaries(n, menu):
+                    entries = [(sub["ab"[i % 2]], b[2 * i], b[2 * i + 1]) for i in range(n)]
+                    for opt in (("none", "none", None, None), ("below", "above", NONASCII_TIER, False)):
+                        _tg_eval(ctx, sc, p, entries, opt, True, fills=(None, FILL, "–"))
+
+
+# ---- writers reused after a caught exception ------------------------------------------------
+def _path_bytes(sc, fmt, payload, kw):
+    """what the accepted payload gives when written to a path on its own"""
+    p = sc.path("accepted." + fmt)
+    if fmt == "trn":
+        if not payload:
+            return b""
+        D.write_trn(payload, p)
+    elif fmt == "ctm":
+        D.write_ctm(payload, p, **kw)
+    else:
+        D.write_textgrid(payload, p, **kw)
+    return _read_bytes(p)
+
+
+def _call_writer(fmt, payload, handle, kw):
+    if fmt == "trn":
+        D.write_trn(payload, handle)
+    elif fmt == "ctm":
+        D.write_ctm(payload, handle, **kw)
+    else:
+        D.write_textgrid(payload, handle, **kw)
+
+
+def _reuse_eval(ctx, sc, fmt, steps, handle_kind, label):
+    """steps: list of dicts {payload, kw, fails: bool, bad_index: int or None}.  One writer call per step on
+    ONE open handle; failing calls are caught and the handle is used again.
+
+    What a FAILED call leaves in the file is outside the property (an int token / non-string id / None time is
+    not a transcript expressible in the format, and nothing is promised about failed writes): it is only
+    COUNTED per writer (failed_write_left_nothing / failed_write_left_partial_output; for a failing trn call of
+    several utterances any number of the complete utterances before the unwritable one counts as nothing
+    partial), and a sequence in which a failed call left partial output gets no verdict.  VERDICT: after failed
+    calls that left nothing, the accepted calls must give exactly the bytes they give when written to a path on
+    their own - a failed call must not corrupt later legal writes through state retained in the library."""
+    writer = "write_" + ("textgrid" if fmt == "tg" else fmt)
+
+    def _content():
+        if handle_kind == "file":
+            handle.flush()
+            return _read_bytes(hp)
+        return handle.getvalue().encode()
+
+    case = {"kind": "reuse", "fmt": fmt, "steps": steps, "handle": handle_kind, "label": label}
+    ctx.case(1, 1)
+    if handle_kind == "file":
+        hp = sc.path("reused." + fmt)
+        handle = open(hp, "w")
+    else:
+        handle = io.StringIO()
+    options = [b""]
+    try:
+        for st in steps:
+            payload = _trn_restore(st["payload"]) if fmt == "trn" else st["payload"]
+            if fmt != "trn":
+                payload = [tuple(x) if isinstance(x, list) and fmt == "tg" else x for x in payload]
+            kw = dict(st.get("kw") or {})
+            if "utt2wc" in kw and isinstance(kw["utt2wc"], dict):
+                kw["utt2wc"] = {k: tuple(v) for k, v in kw["utt2wc"].items()}
+            if not st["fails"]:
+                _call_writer(fmt, payload, handle, kw)
+                add = [_path_bytes(sc, fmt, payload, kw)]
+            else:
+                try:
+                    _call_writer(fmt, payload, handle, kw)
+                except Exception:
+                    pass
+                else:
+                    ctx.count("reuse_expected_failure_was_accepted_by_the_writer(no verdict)")
+                    return
+                if fmt == "trn" and st.get("bad_index"):
+                    add = [_path_bytes(sc, fmt, payload[:k], kw) for k in range(st["bad_index"] + 1)]
+                else:
+                    add = [b""]
+                now = _content()
+                admissible = [o + a for o in options for a in add]
+                if now not in admissible:
+                    ctx.count(f"failed_write_left_partial_output:{writer}")
+                    ctx.count(f"failed_write_left_partial_output:{writer}:{label.split(':')[0]}")
+                    return  # bytes already in the file: outside the property, no verdict for this sequence
+                ctx.count(f"failed_write_left_nothing:{writer}")
+                options = [now]
+                continue
+            options = [o + a for o in options for a in add]
+        if handle_kind == "file":
+            handle.close()
+            got = _read_bytes(hp)
+        else:
+            got = handle.getvalue().encode()
+    except Exception as e:
+        ctx.violation({"api": "write_" + ("textgrid" if fmt == "tg" else fmt), "symptom": "raises",
+                       "entry": "reused-handle", "type": type(e).__name__}, case, _err(e))
+        return
+    finally:
+        if handle_kind == "file" and not handle.closed:
+            handle.close()
+    if got not in options:
+        ctx.violation({"api": writer,
+                       "symptom": "legal-writes-after-a-failed-call-that-left-nothing-differ-from-path-output",
+                       "unwritable": label.split(":")[0]}, case,
+                      {"expected_one_of": [o.decode() for o in options], "observed": got.decode()})
+    else:
+        ctx.outcome([fmt, got.decode()])
+
+
+def _reuse_trn_cases():
+    first = ("u0", ["a"])
+    nexts = [("u9", ["c", "d"]), ("u9", [([["c"], ["d"]], -1, -1)]), ("u9", [])]
+    for X in (5, None):
+        bads = [
+            ("element:top-first", ("u1", [X, "a"])),
+            ("element:top-middle", ("u1", ["a", X, "b"])),
+            ("element:top-last", ("u1", ["a", "b", X])),
+            ("element:only", ("u1", [X])),
+            ("element:timed-token", ("u1", ["a", (X, 0.25, 0.5)])),
+            ("element:alternate-first", ("u1", ["a", ([[X], ["b"]], -1, -1)])),
+            ("element:alternate-second", ("u1", ["a", ([["b"], [X, "a"]], -1, -1)])),
+            ("element:alternate-after-token", ("u1", [([["b", X]], -1, -1)])),
+            ("element:nested-alternate", ("u1", ["b", ([["a", [["b"], [X]]]], -1, -1), "a"])),
+            ("element:after-alternate", ("u1", [([["a"]], -1, -1), X])),
+            ("utt_id:not-a-string", (X, ["a", "b"])),
+        ]
+        for label, bad in bads:
+            for nx in nexts:
+                yield label, [{"payload": [first], "fails": False}, {"payload": [bad], "fails": True},
+                              {"payload": [nx], "fails": False}, {"payload": [("u10", ["b"])], "fails": False}]
+            # the unwritable utterance in the middle / at the end / at the start of ONE call
+            yield label, [{"payload": [first, ("u2", ["b", "b"]), bad, nexts[0]], "fails": True, "bad_index": 2},
+                          {"payload": [nexts[1]], "fails": False}]
+            yield label, [{"payload": [bad, first], "fails": True, "bad_index": 0}, {"payload": [nexts[0]], "fails": False}]
+
+
+def _reuse_ctm_cases():
+    good1 = [("u1", [("a", 0.0, 4.0), ("b", 2.25, 2.25)])]
+    good2 = [("u2", [("b", 10.5, 14.5)]), ("u1", [("a", 2.25, 6.25)])]
+    badsegs = [("negative-start", ("a", -1.0, 2.0)), ("negative-duration", ("a", 2.0, 1.0)), ("bare-token", "a"),
+               ("pair", ("a", 1.0))]
+    for mapname in ("default", "samewav"):
+        utt2wc = CTM_MAPS[mapname][0]
+        kw = {} if utt2wc is None else {"utt2wc": utt2wc}
+        for label, seg in badsegs:
+            for pos in (0, 1, 2):
+                segs = [("a", 0.0, 0.0), ("b", 2.25, 6.25)]
+                segs.insert(pos, seg)
+                for bad in ([("u2", segs)], [("u1", [("b", 0.0, 4.0)]), ("u2", segs)]):
+                    yield "segment:" + label, [{"payload": good1, "kw": kw, "fails": False},
+                                               {"payload": bad, "kw": kw, "fails": True},
+                                               {"payload": good2, "kw": kw, "fails": False}]
+        yield "utterance:missing-from-utt2wc", [
+            {"payload": good1, "kw": kw, "fails": False},
+            {"payload": [("u1", [("a", 0.0, 4.0)]), ("zz", [("b", 1.0, 2.0)])], "kw": {"utt2wc": _W_SAME}, "fails": True},
+            {"payload": good2, "kw": kw, "fails": False}]
+
+
+def _reuse_tg_cases():
+    good = [("a", 0.25, 0.5), ("b", 2.0, 12.5)]
+    for precision in (0, 3, 5):
+        kw = {"precision": precision}
+        bads = [("transcript:empty", [], kw),
+                ("option:start_time-after-first-start", good, dict(kw, start_time=1.0)),
+                ("option:end_time-before-last-end", good, dict(kw, end_time=3.0))]
+        for pos in (0, 1, 2):
+            tr = list(good)
+            tr.insert(pos, ("a", None, 1.0))
+            bads.append(("time:none", tr, kw))
+            tr = list(good)
+            tr.insert(pos, ("a", 1.0, None))
+            bads.append(("time:none", tr, kw))
+        for label, bad, bkw in bads:
+            yield label, [{"payload": bad, "kw": bkw, "fails": True},
+                          {"payload": good, "kw": dict(kw, tier_name=OTHER_TIER), "fails": False}]
+
+
+def _reuse_after_error(ctx, sc):
+    """object lifecycle: an open handle reused after a writer raised and the caller caught it"""
+    for fmt, gen in (("trn", _reuse_trn_cases), ("ctm", _reuse_ctm_cases), ("tg", _reuse_tg_cases)):
+        for label, steps in gen():
+            for hk in ("file", "stringio"):
+                _reuse_eval(ctx, sc, fmt, steps, hk, label)
+
+
 def _large_shard(ctx, spec, tier, seed):
     sc = _Scratch("large")
     try:
+        _reuse_after_error(ctx, sc)
+        _nonascii(ctx, sc)
         _large_tok(ctx)
         _large_ctm(ctx, sc)
         _large_tg(ctx, sc)
@@ -988,6 +1240,8 @@ def replay(case):
             else:
                 _tok_eval(ctx, case["transcript"], vocab, case["frame_shift_ms"], case["skip"],
                           case.get("default_dtype", "float32"))
+        elif kind == "reuse":
+            _reuse_eval(ctx, sc, case["fmt"], case["steps"], case["handle"], case["label"])
         elif kind == "probe":
             ctx.merge(run_shard(case["spec"], "quick", 0))
         else:
